@@ -25,6 +25,9 @@ func init() {
 func genC19(r *Rng, tier string, idx int) *Plan {
 	p := &Plan{SchedSeed: r.U64()}
 	nf := r.Range(1, 4)
+	if idx%10 == 9 {
+		nf = r.Range(2, 4)
+	}
 	p.Spec = genSpec(r, genOpts{Filters: nf, NoFetch: true, NoDiscovery: true, ForceStore: "memory"})
 	names := []string{"oidc-secret", "shared-secret", "team-b-secret"}
 	refs := map[string]bool{}
@@ -50,8 +53,16 @@ func genC19(r *Rng, tier string, idx int) *Plan {
 	if idx%10 == 9 {
 		// a cross-namespace reference must be refused at start-up
 		p.Mode = "cross-namespace"
-		f := &p.Spec.Filters[r.Intn(nf)]
+		k := r.Intn(nf)
+		f := &p.Spec.Filters[k]
 		f.SecretRef, f.SecretRefNS = "oidc-secret", "kube-system"
+		// ... possibly after an earlier filter that references the same name in the own namespace
+		if k > 0 && r.Bool() {
+			p.Spec.Filters[0].SecretRef, p.Spec.Filters[0].SecretRefNS = "oidc-secret", r.Pick([]string{"", "default"})
+		}
+		if k+1 < nf && r.Bool() {
+			p.Spec.Filters[k+1].SecretRef, p.Spec.Filters[k+1].SecretRefNS = "oidc-secret", ""
+		}
 		return p
 	}
 	if len(refs) == 0 {
